@@ -223,7 +223,15 @@ func TestC20(t *testing.T) {
 					// the reload races with the lines that follow
 					go func() {
 						defer rwg.Done()
-						if err := rt.CompileAndRun(prog, strings.NewReader(fmt.Sprintf(progV, v))); err != nil {
+						src := fmt.Sprintf(progV, v)
+						retype := run%3 == 2 && v%2 == 1
+						if retype {
+							// a version that changes the KIND of a metric the program
+							// exports: whether such a reload is accepted or refused, the
+							// lines must reach exactly one version, in order
+							src = strings.Replace(src, "counter lines", "gauge lines", 1)
+						}
+						if err := rt.CompileAndRun(prog, strings.NewReader(src)); err != nil && !retype {
 							t.Error(err)
 						}
 					}()
